@@ -218,6 +218,35 @@ func runC05(ctx *Ctx) {
 				}
 			}
 		}
+		// parameter lengths: one parameter of every length 0..1100, and a 32-octet first parameter (a serving network name)
+		// with a second one of every length 0..1100 (the input string S = FC || P0 || L0 || P1 || L1 of every total length)
+		for plen := 0; plen <= 1100; plen++ {
+			for variant := 0; variant < 2; variant++ {
+				var ps [][]byte
+				if variant == 0 {
+					ps = [][]byte{pattern(2+plen%5, plen)}
+				} else {
+					ps = [][]byte{[]byte("5G:mnc001.mcc001.3gppnetwork.org"), pattern(3+plen%5, plen)}
+				}
+				cs := fmt.Sprintf("GetKDFValue FC=6A with parameters of %d and %d octets", len(ps[0]), len(ps[len(ps)-1]))
+				var got []byte
+				if perr := recoverErr(func() {
+					if variant == 0 {
+						got = UeauCommon.GetKDFValue(kdfKeys[0], "6A", ps[0], UeauCommon.KDFLen(ps[0]))
+					} else {
+						got = UeauCommon.GetKDFValue(kdfKeys[0], "6A", ps[0], UeauCommon.KDFLen(ps[0]), ps[1], UeauCommon.KDFLen(ps[1]))
+					}
+				}); perr != nil {
+					r.Violate("KDF/panic", cs, perr.Error(), nil)
+					continue
+				}
+				n++
+				lk.Case(cs, true, fmt.Sprintf("%x", got[:4]))
+				if want := refcrypto.KDF(kdfKeys[0], 0x6a, ps...); !bytes.Equal(got, want) {
+					r.Violate("KDF/value/parameter-length", cs, fmt.Sprintf("got %x want %x", got, want), nil)
+				}
+			}
+		}
 		lk.Merge()
 		r.Set("kdf_history_calls", n)
 		r.Sample("GetKDFValue(K1,FC 6A,..) ; same key buffer overwritten with K2 ; GetKDFValue(K2,FC 6A,..) ; ... results against HMAC-SHA-256 written out by the harness")
